@@ -303,7 +303,10 @@ func runSeqHistory(eng *kb.Engine, engName string, b *seqBehaviour, rnd *rand.Ra
 		exp = append(exp, k)
 	}
 	env.Rec.Log(gate.Event{"e": "Init", "base": gate.Clip(b.Base), "nkeys": b.NKeys, "store": store0, "engine": engName,
-		"prefixes": []interface{}{allKeys(b.NKeys)}, "expiring": exp})
+		"prefixes": []interface{}{allKeys(b.NKeys)}, "expiring": exp, "ttl_ms": opt.ttlMs})
+	lastCompact := time.Time{}
+	oldestMark := time.Time{}
+	inconclusive := false
 	var transcript []string
 	ap := newAPI(env, opt.api)
 	rd := &reader{env: env, agree: &transcript, eng: engName, api: ap}
@@ -343,6 +346,20 @@ func runSeqHistory(eng *kb.Engine, engName string, b *seqBehaviour, rnd *rand.Ra
 			if opt.beforeCompact != nil {
 				opt.beforeCompact(env, o)
 			}
+			if opt.ttlMs > 0 {
+				ttl := time.Duration(opt.ttlMs) * time.Millisecond
+				if o.Aged > 0 {
+					// every compaction mark so far must be older than the TTL
+					if !lastCompact.IsZero() {
+						if d := ttl*13/10 - time.Since(lastCompact); d > 0 {
+							time.Sleep(d)
+						}
+					}
+					oldestMark = time.Time{}
+				} else if !oldestMark.IsZero() && time.Since(oldestMark) > ttl*8/10 {
+					inconclusive = true // a mark that the model keeps young has aged: timing not as modelled
+				}
+			}
 			minunc := backend.VerifRetryMinRevision(env.B)
 			// fault plan of this compaction: the bad-th issued deletion fails with outcome fk,
 			// the worker dies when it is about to issue deletion number crash+1
@@ -365,6 +382,10 @@ func runSeqHistory(eng *kb.Engine, engName string, b *seqBehaviour, rnd *rand.Ra
 			}
 			env.Rec.Log(gate.Event{"e": "CReturn", "p": "c1", "req": gate.Clip(o.Req), "hdr": gate.Clip(hdr), "err": errStr(err), "minunc": gate.Clip(minunc)})
 			env.Store.DelFault = nil
+			lastCompact = time.Now()
+			if oldestMark.IsZero() {
+				oldestMark = lastCompact
+			}
 			transcript = append(transcript, fmt.Sprintf("compact %d -> %d %v", o.Req, hdr, errStr(err)))
 			if err != nil || hdr != o.Hdr {
 				notes = append(notes, fmt.Sprintf("op %d compact(%d): real hdr %d err %v, spec hdr %d", i, o.Req, hdr, err, o.Hdr))
@@ -409,6 +430,9 @@ func runSeqHistory(eng *kb.Engine, engName string, b *seqBehaviour, rnd *rand.Ra
 		time.Sleep(200 * time.Microsecond)
 	}
 	transcript = append(transcript, evlines...)
+	if inconclusive {
+		return nil, nil, []string{"inconclusive timing"}, rd.n
+	}
 	env.Rec.Log(gate.Event{"e": "Quiesce", "committed": gate.Clip(env.B.GetCurrentRevision()), "returned": true, "retryq": backend.VerifRetryQueueSize(env.B)})
 	return env.Rec.Events(), transcript, notes, rd.n
 }
@@ -422,6 +446,7 @@ func allKeys(n int) []interface{} {
 }
 
 type seqOptions struct {
+	ttlMs         int
 	api           string // "" = native backend, "etcd" = through the etcd-compatible server
 	noTTL         bool
 	streams       bool
@@ -448,9 +473,20 @@ func cmdSeqRun(args []string) int {
 	finalFrac := fs.Float64("finalfrac", 1.0, "fraction of the read space read at the end of a history")
 	streams := fs.Bool("streams", true, "include streamed ranges")
 	apiKind := fs.String("api", "", "\"etcd\": issue the requests through the etcd-compatible server")
+	ttlSec := fs.Int("ttl", 0, "TTL of Event records in seconds (0: default); enables the expiry scenarios")
+	keyset := fs.String("keyset", "", "\"events\": key names with Event records and look-alikes")
 	fs.Parse(args)
 	kb.QuietLogs()
 	backend.VerifSetRetryIntervals(0, time.Millisecond)
+	if *ttlSec > 0 {
+		backend.VerifSetEventsTTL(int64(*ttlSec))
+	}
+	var keyNames []string
+	var eventKeys []int
+	if *keyset == "events" {
+		keyNames = []string{"/a", "/events/n/e1", "/events/n/e2", "/pods/events/p1"}
+		eventKeys = []int{2, 3}
+	}
 	names := strings.Split(*engine, ",")
 	engs := map[string]*kb.Engine{}
 	for _, n := range names {
@@ -518,7 +554,7 @@ func cmdSeqRun(args []string) int {
 		bad := false
 		for _, en := range names {
 			rnd := rand.New(rand.NewSource(*seed*7919 + int64(n)))
-			evs, transcript, notes, reads := runSeqHistory(engs[en], en, &b, rnd, *frac, seqOptions{streams: *streams && *apiKind == "", finalFrac: *finalFrac, api: *apiKind})
+			evs, transcript, notes, reads := runSeqHistory(engs[en], en, &b, rnd, *frac, seqOptions{streams: *streams && *apiKind == "", finalFrac: *finalFrac, api: *apiKind, ttlMs: *ttlSec * 1000, keyNames: keyNames, eventKeys: eventKeys})
 			rep.Reads += reads
 			rep.Events += len(evs)
 			for _, e := range evs {
